@@ -113,6 +113,16 @@ func (c *concRun) yieldHook(id int) {
 	}
 }
 
+// blockHook: a caller found a lock of the cache taken by a parked caller.
+//
+//go:norace
+func (c *concRun) blockHook() {
+	if tc := c.current(); tc != nil {
+		c.poll(tc)
+		tc.t.BlockYield()
+	}
+}
+
 //go:norace
 func (c *concRun) caller(tc *tctx, ops []Op) {
 	dir := filepath.Join(c.w.root, "work")
@@ -223,6 +233,8 @@ func execConc(r *Record, root string) *core.Outcome {
 	wt.t = c.s.Go(func(t *baton.Task) { c.worldTask(wt, r.World) })
 	c.tasks = append(c.tasks, wt)
 	verifhook.YieldHook = c.yieldHook
+	verifhook.BlockHook = c.blockHook
+	defer func() { verifhook.BlockHook = nil }()
 	sched := r.Sched
 	c.s.Pick = func(step int, runnable []int, last int) int {
 		if step < len(sched) {
@@ -297,6 +309,7 @@ func execConc(r *Record, root string) *core.Outcome {
 		}
 	}
 	out.ProbeN("task_switches", switches)
+	out.ProbeN("yields_on_taken_lock", c.s.Blocks)
 	var shape []string
 	for _, tk := range r.Tasks {
 		for _, o := range tk {
@@ -413,6 +426,7 @@ func (c *concRun) oracle(hist []event, stub []cw.LogLine) {
 		lists        []int
 		listSeqs     []uint64
 		hashAfterInv bool
+		selfHashed   map[string]bool // packages whose own fingerprint this call asked for
 	}
 	var ops []*opRec
 	open := map[int]*opRec{}
@@ -422,6 +436,13 @@ func (c *concRun) oracle(hist []event, stub []cw.LogLine) {
 			o := &opRec{task: e.Task, kind: e.OpKind, path: e.Path, inv: e.Seq}
 			open[e.Task] = o
 			ops = append(ops, o)
+		case "hash":
+			if o := open[e.Task]; o != nil && e.Self {
+				if o.selfHashed == nil {
+					o.selfHashed = map[string]bool{}
+				}
+				o.selfHashed[e.Path] = true
+			}
 		case "list":
 			if o := open[e.Task]; o != nil {
 				o.lists = append(o.lists, e.StubN)
@@ -515,6 +536,14 @@ func (c *concRun) oracle(hist []event, stub []cw.LogLine) {
 				}
 				out.Probe("find_error_under_fault")
 				continue
+			}
+			// by the letter, in every configuration: data is served from an entry only after
+			// comparing the package's fingerprint with the recorded one - a lookup that ran no
+			// listing and never asked for the fingerprint served somebody's recording unchecked
+			// (a recording that may be older than a change that preceded this call)
+			if len(o.lists) == 0 && !o.selfHashed[o.path] {
+				out.Violate(P, "served-without-validation", fmt.Sprintf("%s returned %q without running the listing command and without asking for the fingerprint of %s during the call", tag, o.content, o.path))
+				return
 			}
 			if r.Strict {
 				st := statesIn(p, o.inv, o.ret)
